@@ -123,7 +123,8 @@ class SimSpawn:
             if fault and fault["kind"] == "kill_before_start":
                 raise SimKill()
             try:
-                runner.run_local()
+                with _subprocess_seam(runner):
+                    runner.run_local()
                 rc = 0  # run_local always leaves through exit(); falling off the end means status 0
             except SystemExit as e:
                 rc = e.code if isinstance(e.code, int) else (0 if e.code is None else 1)
@@ -157,6 +158,70 @@ class SimSpawn:
             rc = -9
         self.log.append({"stem": stem, "attempt": n, "rc": rc, "fault": fault})
         return subprocess.CompletedProcess(argv, rc, stdout=out.getvalue(), stderr=err.getvalue())
+
+
+class _FakePopen:
+    """What a runner that uses subprocess.Popen directly gets: the program has 'run' when the object exists."""
+
+    def __init__(self, fake, argv, **kw):
+        self.args = argv
+        cp = fake(argv, **kw)
+        self.returncode = cp.returncode
+        self._out, self._err = cp.stdout, cp.stderr
+        self.pid = 4242
+        self.stdout = self.stderr = self.stdin = None
+
+    def wait(self, timeout=None):
+        return self.returncode
+
+    def poll(self):
+        return self.returncode
+
+    def communicate(self, input=None, timeout=None):
+        return self._out, self._err
+
+    def kill(self):
+        pass
+
+    terminate = kill
+
+    def __enter__(self):
+        return self
+
+    def __exit__(self, *a):
+        return False
+
+
+@contextlib.contextmanager
+def _subprocess_seam(runner):
+    """However the simulated _molli_run starts its external programs - the name `run` it imported, `subprocess.run`,
+    `subprocess.call`, `check_call`, `check_output` or `Popen` through the module - the call ends at the scripted program
+    installed as `runner.run`.  Only while the simulated child executes (the harness starts no process meanwhile)."""
+    def fake(*a, **kw):
+        return runner.run(*a, **kw)
+
+    def call(*a, **kw):
+        return fake(*a, **kw).returncode
+
+    def check_call(*a, **kw):
+        kw["check"] = True
+        return fake(*a, **kw).returncode
+
+    def check_output(*a, **kw):
+        kw["check"] = True
+        kw["stdout"] = subprocess.PIPE
+        return fake(*a, **kw).stdout
+
+    def popen(argv, *a, **kw):
+        return _FakePopen(fake, argv, **kw)
+
+    saved = {n: getattr(subprocess, n) for n in ("run", "call", "check_call", "check_output", "Popen")}
+    subprocess.run, subprocess.call, subprocess.check_call, subprocess.check_output, subprocess.Popen = fake, call, check_call, check_output, popen
+    try:
+        yield
+    finally:
+        for n, v in saved.items():
+            setattr(subprocess, n, v)
 
 
 def _runner_exit(code=0):
